@@ -56,9 +56,34 @@ fn reject_one_both(ctx: &Ctx, base: &[u8], v: (u8, u8, u8), counting: bool) -> R
 		ctx.nontrivial(rt::hash_bytes(&[1, v.0, v.1, v.2]));
 		ctx.sample_k("reject", 4, || json!({"version": format!("{}.{}.{}", v.0, v.1, v.2), "writers": ["slp", "slpp"]}));
 	}
-	let mut g = rt::slp_read_default(base).expect_ok("slippi::read")?;
+	// the refusal must not depend on what else the game contains: the base game varies with the version
+	// (no players at all, no frames, no Gecko list, no Game End, no metadata, Ice Climbers)
+	let variant = (rt::hash_bytes(&[v.0, v.1, v.2]) % 8) as usize;
+	let alt;
+	let base: &[u8] = if variant == 0 {
+		base
+	} else {
+		let mut m = match variant {
+			1 => simple_model((3, 16, 0), &[], 0, 3, Pattern::Zero, 1, true),
+			2 => simple_model((3, 16, 0), &[(1, false)], 0, 4, Pattern::Random, 1, true),
+			3 => simple_model((3, 16, 0), &[(0, true), (3, false)], 2, 5, Pattern::Random, 0, true),
+			4 => simple_model((3, 16, 0), &[(2, false)], 1, 6, Pattern::Random, 2, false),
+			5 => simple_model((2, 0, 1), &[(0, false), (1, false)], 2, 7, Pattern::Random, 1, true),
+			6 => simple_model((0, 1, 0), &[(0, false), (1, false), (2, false), (3, false)], 1, 8, Pattern::Random, 0, false),
+			_ => simple_model((3, 16, 0), &[(0, false), (1, true)], 3, 9, Pattern::Special, 1, true),
+		};
+		if variant % 2 == 0 {
+			m.gecko = None;
+		}
+		alt = m.encode();
+		&alt
+	};
+	if counting {
+		ctx.class(&format!("reject_base_variant_{}", variant));
+	}
+	let mut g = rt::slp_read_default(base).expect_ok("slippi::read(base game)")?;
 	g.start.slippi.version = Version(v.0, v.1, v.2);
-	let d = json!({"version": [v.0, v.1, v.2]});
+	let d = json!({"version": [v.0, v.1, v.2], "base_variant": variant});
 	match rt::slp_write(&g) {
 		Out::Err(_) => {}
 		o => return Err(Fail::new(format!("op=slp write newer {}", o.kind()), format!("slippi::write did not refuse version {:?}", v)).with_detail(d)),
